@@ -13,9 +13,7 @@ class C15(Monitor):
     name = 'inbound-headers'
 
     def on_step(self, w, s):
-        if s.kind != 'recv' or s.snap['closed'] or len(s.units) != 1 or s.quirk:
-            return
-        if not s.ok and s.trailing >= 9:
+        if s.kind != 'recv' or s.snap['closed'] or not s.exact or s.quirk:
             return
         e = w.eps[s.ep]
         trk = e.trk
@@ -62,6 +60,8 @@ class C15(Monitor):
                 return
             kind = 'response'
         elif pre.state in ('open', 'hcL'):
+            if pre.recv_cl is not None:
+                return      # a declared content-length decides at the end of the message: C16
             cs = (pre.mine and not pre.pushed) or (pre.pushed and not pre.mine)
             if cs and pre.recv in (NONE, INFO):
                 kind = 'info' if is_info(wire) else 'response'
@@ -98,7 +98,7 @@ class C15(Monitor):
             self.nontrivial = True
         if validate and why is not None:
             if s.ok:
-                self.fail('nonconformant-delivered', '%s block delivered although: %s' % (kind, why), s, why=why, kind=kind)
+                self.fail('nonconformant-delivered', '%s block delivered although: %s' % (kind, why), s, why=why, block=kind)
             elif s.exc['code'] != C.PROTOCOL_ERROR:
                 self.fail('nonconformant-code', 'non-conformant block refused with code %s' % s.exc['code'], s, why=why)
             return
@@ -115,7 +115,7 @@ class C15(Monitor):
                     return
             if not s.ok:
                 self.fail('conformant-refused', 'a conformant %s block was refused: %s@%s' % (kind, s.exc['type'], s.exc['where']), s,
-                          kind=kind, headers=wire[:8])
+                          block=kind, headers=wire[:8])
                 return
             evs = [ev for ev in s.events if ev['t'] == HEADER_EVENTS[kind]]
             if len(evs) != 1:
